@@ -34,6 +34,10 @@ How the transports are wired to doubles (nothing in ioflo needs to be changed):
                  nb = SerialNb(port="fake"); nb.serial = FakeSerialPort(); nb.opened = True; Driver(server=nb)
     code that calls socket.socket() itself (open/reopen, stacks creating their handler):
                  with patched(clienting, "socket", SocketModuleProxy(lambda *a, **k: FakeSocket())): ...
+
+The builders at the end of the module do exactly this wiring: client_on_double(tls=..),
+incomer_on_double(tls=..), server_on_double(tls=..), udp_on_double(). exc_site(ex) gives a
+root-cause signature 'Type@file.py:function' for an unexpected exception.
 """
 import contextlib
 import errno
@@ -118,10 +122,6 @@ class Script(object):
 
     def __len__(self):
         return len(self.items)
-
-
-def _show(x):
-    return x if isinstance(x, (int, str, bytes, type(None), tuple)) else repr(x)
 
 
 # ------------------------------------------------------------------ stream / datagram socket
